@@ -29,6 +29,10 @@ CLAIMED = {
    text='TLC checks on every key sequence of a small scope that the rank-based stable argsort meets the declarative statement (permutation, keys non-decreasing, ties in input order; descending = exact reverse) and that the as-built multi-key route (successive stable sorts, last key first = np.lexsort with reversed keys) equals the lexicographic stable sort (MC_C12); every enumerated sort is replayed on the real containers on every layout; tie-heavy Series/Frames of up to 150 rows (flat and hierarchical labels, 1-3 keys, both axes) are sorted by the real code and TLC (Trace_C12) evaluates the declarative statement on each recorded (keys, permutation, result).',
    ref='DESIGN.md section 4 (C12)', note='String keys are ordered through a fixed table of the generator alphabet (TLC has no string order). Key functions are not modelled.',
    technique='TLA+ spec SFSort model checked with TLC; state dump replayed into the code; recorded sorts validated by a TLC trace spec'),
+ 'C13': dict(
+   text='TLC checks that the transcribed window loop of axis_window_items yields exactly the declared anchors and contiguous slices for every parameter combination of a small scope, and that the two grouping routes of the code (stable sort + cut at key transitions; unique keys + masks) agree and produce a partition with constant, distinct keys and original order (MC_C13); every enumerated case is replayed on the real iterators; recorded groupings (by values, 1-2 columns, label depth, both axes, object keys, with apply) and window iterations of random containers are validated by TLC (Trace_C13): IsPartition, group content = source taken at the members, apply labelled by key, windows = loop.',
+   ref='DESIGN.md section 4 (C13)', note='NaN keys are outside the claim. The name carried by a group and the numeric class of a consolidated multi-column key (1 vs 1.0) are not observables.',
+   technique='TLA+ spec SFGroup model checked with TLC; state dump replayed into the code; recorded iterations validated by a TLC trace spec'),
 }
 REASON_TODO = 'not yet built in this round: the specification module for this property is still being written (see DESIGN.md section 9)'
 ALL = ['C%02d' % i for i in range(1, 21)]
